@@ -212,7 +212,7 @@ def run_case(spec, ctx):
     # a polyhedron built with its own boundary tolerance: rows closer to a face than that tolerance are on
     # the boundary by the user's declaration (judged where the declared tolerance dominates float32 rounding)
     A0 = E.get("a", {})
-    if E["t"] == "boundary" and A0.get("t") == "mesh" and A0.get("tol") and A0["tol"] >= 20 * tol["tol_b"]:
+    if E["t"] == "boundary" and A0.get("t") == "mesh" and A0.get("tol") and A0["tol"] >= 20 * 1e-4 * tol["scale"]:
         bp, bn = rg.leaf_boundary_points(A0, {}, 4)
         qs = np.concatenate([bp + f * A0["tol"] * bn for f in (0.45, -0.45, 0.2)])
         e_t = geo.env32({A0["var"]: qs})
